@@ -119,3 +119,15 @@ package host
 //@   requires stats != nil
 //@   modifies atomu64, atombool
 //@   ensures @flip-to-unhealthy atomu64[stats.successfulCount] == 0 && atomu64[stats.failedCount] == 0 && result == old(atombool[stats.isHealthy]) && !atombool[stats.isHealthy]
+
+// ---- C08: host objects built from endpoints ------------------------------------------------------------
+
+//@ func NewStats
+//@   prop C08
+//@   modifies atombool
+//@   ensures result != nil && fresh(result)
+
+//@ func NewWithType
+//@   prop C08
+//@   modifies atombool
+//@   ensures @host-of-the-endpoint result != nil && fresh(result) && result.Addr == addr && result.Type == typ
